@@ -42,6 +42,7 @@ fn do_call(u: &Unimock, m: u32, a: u8) -> String {
         7 => <Unimock as G<u16>>::g(u, a).take(),
         9 => take_triple(u.mt(a)),
         38 => <Unimock as R1>::get::<u8>(u, a).take(),
+        40 => u.db(A8(a)).take(),
         39 => <Unimock as R2>::get::<u8>(u, a).take(),
         _ => panic!("harness: no such method {m}"),
     }
